@@ -16,10 +16,79 @@ func init() {
 	verifHarnesses["VerifC03_Echo"] = VerifC03_Echo
 	verifHarnesses["VerifC03_PingFire"] = VerifC03_PingFire
 	verifHarnesses["VerifC03_VoidThrows"] = VerifC03_VoidThrows
+	verifHarnesses["VerifC03_Names"] = VerifC03_Names
+	verifHarnesses["VerifC03_ConcurrentCalls"] = VerifC03_ConcurrentCalls
+}
+
+// two goroutines call through one generated client: each caller observes the value
+// for its own argument and the handler sees each argument exactly once, whatever the
+// interleaving between serialisation and the transport picking the frame up.
+func VerifC03_ConcurrentCalls() {
+	h := &verifHandler{}
+	client, loop := verifSetup(h)
+	loop.slow = true
+	a1, a2 := verifStr(1), verifStr(1)
+	verifAssume(a1 != a2)
+	type res struct {
+		arg, got string
+		err      error
+	}
+	done := make(chan res, 2)
+	var seen []string
+	h.onFetch = func(u string) { seen = append(seen, u) }
+	for _, a := range []string{a1, a2} {
+		a := a
+		go func() {
+			got, err := client.FetchUrl(frugal.NewFContext("cid"), a)
+			done <- res{a, got, err}
+		}()
+	}
+	for i := 0; i < 2; i++ {
+		r := <-done
+		verifAssert(r.err == nil && r.got == "url:"+r.arg, "each caller receives the value for its own argument")
+	}
+	verifAssert(len(seen) == 2 && seen[0] != seen[1], "the handler ran once per call, with each argument once")
+	verifReach("end")
+}
+
+// methods whose names differ only in capitalisation, and a method whose argument
+// ids are not in declaration order: the right handler method runs with the
+// arguments in the caller's positions.
+func VerifC03_Names() {
+	h := &verifHandler{outcome: verifChoice(2) * verifUndeclared} // value or undeclared failure
+	client, loop := verifSetup(h)
+	a := verifStr(verifChoice(verifBound() + 1))
+	b := verifStr(verifChoice(verifBound() + 1))
+	var got, want, which string
+	var err error
+	switch verifParam() {
+	case 0:
+		got, err = client.FetchUrl(frugal.NewFContext("cid"), a)
+		which, want = "fetchUrl", "url:"+a
+		verifAssert(h.s == a, "equal argument")
+	case 1:
+		got, err = client.FetchURL(frugal.NewFContext("cid"), a)
+		which, want = "fetchURL", "URL:"+a
+		verifAssert(h.s == a, "equal argument")
+	case 2:
+		got, err = client.Route(frugal.NewFContext("cid"), a, b)
+		which, want = "route", a+"<-"+b
+		verifAssert(h.s == a && h.id == b, "every argument arrives in the parameter the caller passed it for")
+		verifReach("out-of-order-ids")
+	}
+	verifAssert(h.calls == 1 && loop.requests == 1 && h.which == which, "exactly the called method's handler runs, once")
+	if h.outcome == verifValue {
+		verifAssert(err == nil && got == want, "the caller observes the returned value")
+	} else {
+		te, ok := err.(thrift.TApplicationException)
+		verifAssert(ok && te.TypeId() == frugal.APPLICATION_EXCEPTION_INTERNAL_ERROR, "undeclared failure -> INTERNAL_ERROR")
+	}
+	verifReach("end")
 }
 
 // verifLoop hands every request frame to the processor and returns what it wrote.
 type verifLoop struct {
+	slow     bool // look at the payload only after a scheduling point
 	proc     frugal.FProcessor
 	pf       *frugal.FProtocolFactory
 	requests int
@@ -28,6 +97,9 @@ type verifLoop struct {
 }
 
 func (l *verifLoop) run(payload []byte) (*frugal.TMemoryOutputBuffer, error) {
+	if l.slow {
+		verifYield("transport waits for the connection")
+	}
 	out := frugal.NewTMemoryOutputBuffer(0)
 	in := &thrift.TMemoryBuffer{Buffer: bytes.NewBuffer(payload[4:])}
 	err := l.proc.Process(l.pf.GetProtocol(in), l.pf.GetProtocol(out))
@@ -75,6 +147,8 @@ const (
 )
 
 type verifHandler struct {
+	onFetch func(string)
+	which   string
 	strict  *Strict
 	id      string
 	calls   int
@@ -126,6 +200,27 @@ func (h *verifHandler) Ping(fctx frugal.FContext) error {
 		return nil // ping declares no exception
 	}
 	return h.fail()
+}
+
+func (h *verifHandler) FetchUrl(fctx frugal.FContext, u string) (string, error) {
+	h.calls++
+	h.which, h.s = "fetchUrl", u
+	if h.onFetch != nil {
+		h.onFetch(u)
+	}
+	return "url:" + u, h.fail()
+}
+
+func (h *verifHandler) FetchURL(fctx frugal.FContext, u string) (string, error) {
+	h.calls++
+	h.which, h.s = "fetchURL", u
+	return "URL:" + u, h.fail()
+}
+
+func (h *verifHandler) Route(fctx frugal.FContext, to string, sender string) (string, error) {
+	h.calls++
+	h.which, h.s, h.id = "route", to, sender
+	return to + "<-" + sender, h.fail()
 }
 
 func (h *verifHandler) Fire(fctx frugal.FContext, s string) error {
